@@ -89,6 +89,50 @@ def filter_replace_rule(res, fx):
                    'no longer stops the previous path\'s filter, so the initial snapshot of the unfiltered subscription is computed with that filter and nodes failing it are never sent')
 
 
+def subscribe_pair_rule(res, fx, rule='SUBSCRIBE-PAIR', only=None):
+    """subscription table and per-node marks move together; only='Remove' restricts the obligations to the removal side (C06: a departed subscription leaves no mark)"""
+    res.rule(rule, 'every successful _subscriptions.PutPathString(p, …) is paired with a +1 DoSubscribeRefCallback traversal over a matcher for the same path p, every successful '
+                               'RemovePathString(p) with a -1 traversal for p, Cleanup with the remove-all delta; NodeCreated derives a new node\'s mark from _subscriptions.GetMatchCount', floor=3 if only is None else 1)
+    srs = [f for f in fx.funcs.values() if f.full and (f.cls or '') == SRS]
+    n_sub = 0
+    for f in sorted(srs, key=lambda f: f.line):
+        for c in f.walk():
+            if c['k'] != 'CXXMemberCallExpr' or c.receiver() is None or A.strip_casts(c.receiver()).get('q') != SRS + '::_subscriptions':
+                continue
+            m = (c.get('q') or '').split('::')[-1]
+            if m not in ('PutPathString', 'RemovePathString', 'PutPathsFromMessage', 'RemovePathsFromMessage', 'Clear', 'PutPathFromString'):
+                continue
+            if only is not None and not m.startswith(only):
+                continue
+            n_sub += 1
+            want = +1 if m.startswith('Put') else -1
+            key = '%s|%s|%s' % (rule, f.q, m)
+            if m not in ('PutPathString', 'RemovePathString'):
+                res.ob(rule, f.where(c), '%s on _subscriptions in %s is paired with a marks traversal' % (m, f.q.split('::')[-1]), False, function=f.q, key=key,
+                       message='%s changes the subscription table through %s, for which no per-path marks traversal exists' % (f.q, m))
+                continue
+            trs = [t for t in P.calls(f, r'NodePathMatcher::DoTraversal$') if any(x.get('n') == 'DoSubscribeRefCallbackFunc' for x in t.args()[0].walk())]
+            good = []
+            why = []
+            for t in trs:
+                d = traversal_delta(f, t)
+                pa = matcher_path_arg(f, t)
+                if d != want:
+                    why.append('traversal at line %s uses delta %s, expected %+d' % (t.get('l'), d, want))
+                    continue
+                if pa is None or P_canon(pa) != P_canon(c.args()[0]):
+                    why.append('traversal at line %s walks `%s`, subscription path is `%s`' % (t.get('l'), pa.text() if pa is not None else '?', c.args()[0].text()))
+                    continue
+                good.append(t)
+            ok, path = P.must_follow(f, c, good, escapes=P.escape_edges(f)) if good else (False, None)
+            res.ob(rule, f.where(c), '%s(%s) in %s is followed by the %+d marks traversal for the same path' % (m, c.args()[0].text(30), f.q.split('::')[-1], want), ok,
+                   how='DoSubscribeRefCallback traversal at line %s with delta %+d' % (good[0].get('l'), want) if good else None, function=f.q, key=key,
+                   message='%s: %s(%s) succeeds but %s: the per-node subscriber marks no longer agree with the subscription table, so updates are missed or sent forever'
+                           % (f.q, m, c.args()[0].text(40), '; '.join(why) if why and not good else 'a path skips the matching marks traversal'))
+    if n_sub < (2 if only is None else 1):
+        raise AnalysisBroken(rule + ': only %d subscription-table mutations found' % n_sub)
+
+
 def run(res, tier):
     fx = common.load_units(res, ['reflector/StorageReflectSession.cpp', 'reflector/DataNode.cpp', 'regex/PathMatcher.cpp'], fn_regex=r'^muscle::(StorageReflectSession|DataNode|PathMatcher|ImmutableHashtablePool)')
     res.functions_analysed = sum(1 for f in fx.funcs.values() if f.full)
@@ -204,44 +248,7 @@ def run(res, tier):
            message='DataNode::RemoveChild no longer announces the removal (with NODE_CHANGE_FLAG_ISBEINGREMOVED) before SetParent(NULL) resets the subscriber table that the announcement walks: subscribers keep a node that no longer exists')
 
     # ---------------------------------------------------------------------------------- SUBSCRIBE-PAIR
-    res.rule('SUBSCRIBE-PAIR', 'every successful _subscriptions.PutPathString(p, …) is paired with a +1 DoSubscribeRefCallback traversal over a matcher for the same path p, every successful '
-                               'RemovePathString(p) with a -1 traversal for p, Cleanup with the remove-all delta; NodeCreated derives a new node\'s mark from _subscriptions.GetMatchCount', floor=3)
-    srs = [f for f in fx.funcs.values() if f.full and (f.cls or '') == SRS]
-    n_sub = 0
-    for f in sorted(srs, key=lambda f: f.line):
-        for c in f.walk():
-            if c['k'] != 'CXXMemberCallExpr' or c.receiver() is None or A.strip_casts(c.receiver()).get('q') != SRS + '::_subscriptions':
-                continue
-            m = (c.get('q') or '').split('::')[-1]
-            if m not in ('PutPathString', 'RemovePathString', 'PutPathsFromMessage', 'RemovePathsFromMessage', 'Clear', 'PutPathFromString'):
-                continue
-            n_sub += 1
-            want = +1 if m.startswith('Put') else -1
-            key = 'SUBSCRIBE-PAIR|%s|%s' % (f.q, m)
-            if m not in ('PutPathString', 'RemovePathString'):
-                res.ob('SUBSCRIBE-PAIR', f.where(c), '%s on _subscriptions in %s is paired with a marks traversal' % (m, f.q.split('::')[-1]), False, function=f.q, key=key,
-                       message='%s changes the subscription table through %s, for which no per-path marks traversal exists' % (f.q, m))
-                continue
-            trs = [t for t in P.calls(f, r'NodePathMatcher::DoTraversal$') if any(x.get('n') == 'DoSubscribeRefCallbackFunc' for x in t.args()[0].walk())]
-            good = []
-            why = []
-            for t in trs:
-                d = traversal_delta(f, t)
-                pa = matcher_path_arg(f, t)
-                if d != want:
-                    why.append('traversal at line %s uses delta %s, expected %+d' % (t.get('l'), d, want))
-                    continue
-                if pa is None or P_canon(pa) != P_canon(c.args()[0]):
-                    why.append('traversal at line %s walks `%s`, subscription path is `%s`' % (t.get('l'), pa.text() if pa is not None else '?', c.args()[0].text()))
-                    continue
-                good.append(t)
-            ok, path = P.must_follow(f, c, good, escapes=P.escape_edges(f)) if good else (False, None)
-            res.ob('SUBSCRIBE-PAIR', f.where(c), '%s(%s) in %s is followed by the %+d marks traversal for the same path' % (m, c.args()[0].text(30), f.q.split('::')[-1], want), ok,
-                   how='DoSubscribeRefCallback traversal at line %s with delta %+d' % (good[0].get('l'), want) if good else None, function=f.q, key=key,
-                   message='%s: %s(%s) succeeds but %s: the per-node subscriber marks no longer agree with the subscription table, so updates are missed or sent forever'
-                           % (f.q, m, c.args()[0].text(40), '; '.join(why) if why and not good else 'a path skips the matching marks traversal'))
-    if n_sub < 2:
-        raise AnalysisBroken('SUBSCRIBE-PAIR: only %d subscription-table mutations found' % n_sub)
+    subscribe_pair_rule(res, fx)
     from . import srs_shared as _SH0
     _SH0.same_key_rule(res, fx, 'SUBSCRIBE-PAIR')
     f = fx.fn1(SRS + '::NodeCreated')
